@@ -1328,7 +1328,7 @@ def classify_no_path(text, raised, mode, ff, invalid_kinds, supplied_kinds, inne
     return "no-path:other"
 
 
-# the field group of errors.py since /repo <FIXID3> (written here from its documentation, not imported)
+# the field group of errors.py since /repo 18c6055 (written here from its documentation, not imported)
 FIELD_GROUP = r"(?:[\w.]|[^\x00-\x7f\s])"
 
 
